@@ -28,6 +28,7 @@ void SetStage(const char* stage);
 
 // per-case mode flags (reset by the supervisor before every case)
 extern bool g_relCopy;
+extern bool g_buildViaLoad;     // "build": "load" - automata are assembled through LoadFromAutDesc instead of AddTransition / SetStateFinal
 void ResetCaseFlags();
 // "amode": "copy" - while the operation runs, a COPY of operand A (sharing its storage) is alive; it is read back afterwards
 // as res.keep_after and must still have A's value (an operation must not write into storage it shares)
